@@ -139,7 +139,80 @@ func init() {
 	}
 }
 
+func init() {
+	// lookupseq <evm|sub> <src.nonce.answer,…>   ONE long-lived BridgeContract / Pallet answers a SEQUENCE of lookups for
+	//   proposals of several source domains; the node's answer for the pair asked is the one of the current step.
+	//   =>  per step `<what the node was asked | noask>=<answer passed on>`, ','-separated
+	ops["C03.lookupseq"] = func(a []string) string {
+		ab, _ := abi.JSON(strings.NewReader(consts.BridgeABI))
+		ecl := &c3EthClient{abi: ab}
+		rcl := &c3RpcClient{}
+		br := bridge.NewBridgeContract(ecl, common.HexToAddress("0x01"), nil)
+		pl := pallet.NewPallet(&subClient.SubstrateClient{Conn: &connection.Connection{Client: rcl}})
+		out := []string{}
+		for _, q := range items(a[1], ",") {
+			f := strings.Split(q, ".")
+			prop := &transfer.TransferProposal{Source: uint8(u64(f[0])), Destination: 9,
+				Data: transfer.TransferProposalData{DepositNonce: u64(f[1])}}
+			var ok bool
+			var err error
+			asked := ""
+			if a[0] == "evm" {
+				ecl.answer, ecl.asked = f[2], "noask"
+				ok, err = br.IsProposalExecuted(prop)
+				asked = strings.TrimPrefix(ecl.asked, "isProposalExecuted:")
+			} else {
+				rcl.answer, rcl.asked = f[2], "noask"
+				ok, err = pl.IsProposalExecuted(prop)
+				// sygma_isProposalExecuted:uint64=<nonce>:uint8=<domain>  ->  <domain>:<nonce>
+				if g := strings.Split(rcl.asked, ":"); len(g) == 3 {
+					asked = strings.TrimPrefix(g[2], "uint8=") + ":" + strings.TrimPrefix(g[1], "uint64=")
+				} else {
+					asked = rcl.asked
+				}
+			}
+			out = append(out, asked+"="+c3Answer(ok, err))
+		}
+		return joinOr(out, ",")
+	}
+}
+
+// sequences of lookups over a few source domains and nonces that COINCIDE across domains; the node's answers are
+// monotone per (domain, nonce): once executed, executed (lookup errors may come and go)
+func genC03LookupSeq(g *G) {
+	for i := 0; i < g.Count(400, 8000); i++ {
+		n := 2 + g.Intn(6)
+		executed := map[string]bool{}
+		qs := []string{}
+		for j := 0; j < n; j++ {
+			src := []string{"1", "2", "3", "255"}[g.Intn(4)]
+			nonce := []string{"0", "5", "5", "7", "18446744073709551615"}[g.Intn(5)]
+			key := src + "." + nonce
+			ans := "p"
+			switch {
+			case g.Intn(8) == 0:
+				ans = "x"
+			case executed[key] || g.Intn(2) == 0:
+				ans = "e"
+				executed[key] = true
+			}
+			qs = append(qs, key+"."+ans)
+		}
+		g.Emit("lookupseq", g.Pick([]string{"evm", "sub", "sub"}), strings.Join(qs, ","))
+	}
+	// the smallest instance of every pair of domains with a coinciding nonce
+	for _, kind := range []string{"evm", "sub"} {
+		for _, a1 := range []string{"e", "p", "x"} {
+			for _, a2 := range []string{"e", "p", "x"} {
+				g.Emit("lookupseq", kind, "1.5."+a1+",2.5."+a2)
+				g.Emit("lookupseq", kind, "1.5."+a1+",1.6."+a2+",2.5.p,1.5.e")
+			}
+		}
+	}
+}
+
 func genC03Lookups(g *G) {
+	genC03LookupSeq(g)
 	for i := 0; i < g.Count(300, 5000); i++ {
 		src := []uint64{0, 1, 2, 3, 255}[g.Intn(5)]
 		dst := []uint64{0, 1, 2, 3, 255}[g.Intn(5)]
